@@ -588,6 +588,9 @@ def run(ctx):
     res.extra["exhaustive_pairs"] = tier == "thorough"
     res.notes.append("thorough tier enumerates all 256^2 (field, field) pairs of every two-field request and all "
                      "(index, offset) pairs of the thermostat request; the envelope space itself is covered by the theorem")
+    import reuse
+    reuse.frame_reuse(res, random.Random(ctx["seed"] * 31 + 202), 600 if tier == "quick" else 20000)
+    res.notes.append("object re-use: frames serialised, updated through the data / message setters and serialised again are compared with a fresh frame built from the final content")
     order_failures(res)
     return res
 
@@ -598,6 +601,11 @@ def replay(ctx):
     res = Result("C02")
     res.rule = "replay of one recorded case"
     case = f["input"]
+    if case.get("t") == "frame_reuse":
+        import reuse
+        for sd in range(200):   # the recorded scenario is regenerated from the generator (seeded); run a batch
+            reuse.frame_reuse(res, random.Random(sd), 50)
+        return res
     if "cases" in case:
         cases = case["cases"]
     else:
